@@ -47,6 +47,15 @@ CONC_TB = ["sequentially consistent interleaving of the atomic / lock operations
            "the cfg(prometheus_verif) sync shim and the scheduler (harness/src/sched.rs) decide what 'the same schedule' means"]
 
 PROPS = {
+    "C13": dict(
+        module="Prom.Props.C13",
+        areas=[dict(area="pb", quick=1500, thorough=60000, oracle_prefixes=["pb dec"])],
+        rule="case = 1-3 hand-built families of all five MetricTypes (arbitrary Unicode strings, every f64 class incl. NaN payloads, counts at varint boundaries 127/128/16383/16384/2^35/2^64-1, "
+             "0-3 labels, 0-4 buckets, 0-3 quantiles, timestamps 0/+/-, families without name or samples, pre-filled buffers); the real bytes are compared with the table-driven Lean writer "
+             "and decoded by the schema-driven Lean reader; non-trivial = an accepted stream with at least one labelled sample; distinct by request text",
+        trusted=["the `protobuf` crate's CodedOutputStream primitives (outside /repo) are modelled from the wire-format specification and validated only through the byte comparison",
+                 "translate/pbtable.py extracts the writer table from proto/proto_model.rs and the schema from proto/proto_model.proto (two different parsers); a mis-translation shows up in the byte comparison / decoder run, which do not go through the schema/writer respectively"],
+    ),
     "C04": dict(
         module="Prom.Props.C04",
         areas=[dict(area="text", quick=1500, thorough=60000, oracle_prefixes=["text parse"])],
